@@ -220,12 +220,27 @@ def correspond(ctx):
         dist["saturation"] += 1
         na = int(out[2 * idx]); fi, ri = out[2 * idx + 1].split()
         sigs.add(("sat", na == MAX64))
-        if fi != "fin" or na > MAX64 or na < prev or (n >= R_2_64 + 10 ** 6 and na != MAX64) or (n <= PI_2_64 and na < 10 ** 18):
+        if fi != "fin" or na > MAX64 or na + (1 << 20) < prev or (n >= R_2_64 + 10 ** 6 and na != MAX64) or (n <= PI_2_64 and na < 10 ** 18):
             mismatches.append({"key": "saturation", "what": "nthPrimeApprox(%d) = %d (R^-1 = %s): expected a finite, non-decreasing value that saturates at 2^64-1 (previous %d)" % (n, na, ri, prev),
                                "failing_input": {"fn": "nthPrimeApprox", "n": n, "value": na, "previous": prev}})
         prev = max(prev, na)
         if n == PI_2_64 and not abs(na - 18446744073709551557) < (1 << 32):
             mismatches.append({"key": "NA-bound", "what": "nthPrimeApprox(pi(2^64)) = %d" % na, "failing_input": {"fn": "nthPrimeApprox", "n": n, "value": na}})
+    # dense scan across the saturation threshold: n around R(2^64-1), where R^-1 crosses 2^64-1
+    rc2, o2, e2 = ps.run([exe], input="PA %d\n" % MAX64, timeout=60)
+    pa64 = int(o2.split()[0])
+    scan = list(range(pa64 - 600, pa64 + 600))
+    rc2, o2, e2 = ps.run([exe], input="".join("NA %d\n" % n for n in scan), timeout=120)
+    prev2 = 0
+    for n, l in zip(scan, o2.splitlines()):
+        dist["saturation"] += 1
+        na = int(l)
+        # (the Newton iteration in long double is only monotone up to a few units at this magnitude; a wrap is a drop by ~2^64)
+        if na + (1 << 20) < prev2 or na < (1 << 63) or na > MAX64:
+            mismatches.append({"key": "saturation", "what": "nthPrimeApprox(%d) = %d after nthPrimeApprox(%d) = %d: not monotone / wrapped at the saturation threshold" % (n, na, n - 1, prev2),
+                               "failing_input": {"fn": "nthPrimeApprox", "n": n, "value": na, "previous": prev2}})
+            break
+        prev2 = na
     base = 2 * len(nlist)
     for idx, x in enumerate((MAX64, MAX64 - 1, 1 << 63, 10 ** 19)):
         fr, r = out[base + 2 * idx].split(); pa = int(out[base + 2 * idx + 1])
@@ -236,8 +251,20 @@ def correspond(ctx):
 
     # ---- 5. the CLI glue: -R / --RiemannR-inverse print the library's values with 10 decimals, trailing zeros removed
     cli = ps.cli_path()
-    for x in [0, 1, 2, 100, 10 ** 8, 10 ** 8 + 1, 10 ** 12, rng.between(2, 10 ** 15), MAX64]:
-        for opt, cmd in (("-R", "R"), ("--RiemannR-inverse", "RI")):
+    # values printed without decimals (the library result is integral): the integer part must be printed unchanged,
+    # in particular when it ends in 0
+    special = {"R": [], "RI": []}
+    for cmd, cand in (("R", [MAX64 - 37 * k for k in range(3000)]), ("RI", [250000000000000000 + k for k in range(60)] + [3 * 10 ** 17 + 7 * k for k in range(60)])):
+        rc2, o2, e2 = ps.run([exe], input="".join("%s %d\n" % (cmd, x) for x in cand), timeout=120)
+        ints = [(x, dec(l.split()[1])) for x, l in zip(cand, o2.splitlines()) if l.startswith("fin")]
+        ints = [(x, v) for x, v in ints if v == v.to_integral_value()]
+        special[cmd] = [x for x, v in ints if int(v) % 10 == 0][:4] + [x for x, v in ints if int(v) % 10 != 0][:2]
+    for x in [0, 1, 2, 100, 10 ** 8, 10 ** 8 + 1, 10 ** 12, rng.between(2, 10 ** 15), MAX64, ("R", special["R"]), ("RI", special["RI"])]:
+        if isinstance(x, tuple):
+            todo = [((("-R", "R") if x[0] == "R" else ("--RiemannR-inverse", "RI")), v) for v in x[1]]
+        else:
+            todo = [(("-R", "R"), x), (("--RiemannR-inverse", "RI"), x)]
+        for (opt, cmd), x in todo:
             dist["cli"] += 1
             rc1, o1, e1 = ps.run([cli, opt, str(x)], timeout=60)
             rc2, o2, e2 = ps.run([exe], input="%s %d\n" % (cmd, x), timeout=60)
